@@ -16,11 +16,12 @@ LeafTypes == {0, 1, 2, 3, 4, 5, 6, 7, 8, 9, 10, 11, 12, 13, 15, 16, 17, 18, 20, 
 SelfEq(ty) == ty # 15                 \* a non-nil func is not reflect.DeepEqual to itself
 IdLess(ty) == ty \in {1, 2, 13}       \* struct{}{}, opqEmpty{}, (*int)(nil): one value per type
 Op(id, ty) == Opq(IF IdLess(ty) THEN 1 ELSE id, ty, SelfEq(ty))
-Leaves(ty) == {N1, Op(1, ty), Op(2, ty)}
+Leaves(ty) == IF MaxLen = 1 THEN {N1, Sa, Op(1, ty), Op(2, ty)} ELSE {N1, Op(1, ty), Op(2, ty)}
 
 DocsOf(ty) ==
   LET L == Leaves(ty) IN
   {Oab(x, y) : x \in L, y \in L} \cup {Arr(<<Oa(x), Oa(y), Oab(x, N1)>>) : x \in L, y \in L}
+  \cup {Oab(Arr(<<Oa(x), Oa(N1), Oa(Sa)>>), y) : x \in L, y \in L}     \* `$.a[?(@.a < $.b)]`: members against a `$` operand
   \cup (IF Templates = "all" THEN {Oa(Arr(<<x, y>>)) : x \in L, y \in L} \cup {Arr(<<x, Oa(y)>>) : x \in L, y \in L} ELSE {})
 
 Pa == Cur(<<Nm(ka)>>)
@@ -28,7 +29,8 @@ Sigma == { Nm(ka), Nm(kb), Wild, Un(<<Idx(0)>>), Un(<<Idx(1), Idx(0)>>), Multi(<
            Flt(Exist(Pa)), Flt(Exist(Cur(<<>>))), Flt(NotP(Pa)),
            Flt(Cmp("==", Pa, Root(<<Nm(kb)>>))), Flt(Cmp("!=", Pa, Root(<<Nm(kb)>>))), Flt(Cmp("==", Cur(<<>>), Root(<<Nm(ka)>>))),
            Flt(Cmp("==", Pa, Lit(N1))), Flt(Cmp("!=", Pa, Lit(Null))), Flt(Cmp("<", Pa, Lit(N2))), Flt(Cmp(">=", Root(<<Nm(ka)>>), Pa)),
-           Flt(Re(Pa, "^.*$")), Flt(Exist(Cur(<<Nm(ka), Nm(ka)>>))), Flt(Exist(Cur(<<Nm(ka), Wild>>))) }
+           Flt(Re(Pa, "^.*$")), Flt(Exist(Cur(<<Nm(ka), Nm(ka)>>))), Flt(Exist(Cur(<<Nm(ka), Wild>>))),
+           Flt(Cmp("<", Pa, Root(<<Nm(kb)>>))), Flt(Cmp("==", Root(<<Nm(kb)>>), Pa)) }
 FSeqs == { <<FF(Fn_f1)>>, <<AF(Fn_g1)>>, <<FF(Fn_fid), AF(Fn_g2)>> }
 
 VARIABLES ty, doc, steps, funcs, n
